@@ -57,6 +57,9 @@ func lookupScenarios() []*scen {
 		{Name: "S11 poll that expires a cached name || NewUpdater(name) || server change", Declared: []string{"d"}, Expiry: 100 * time.Second, ClockAdd: 0,
 			Initial: map[string]cInit{"d": {Ver: 1, LastAccess: -5}, "plum": {Ver: 1, LastAccess: -1000}},
 			Threads: map[string][]string{"poller": {"refresh"}, "w": {"upd:plum", "updget:plum"}}, Events: []string{"srv-put:plum"}},
+		{Name: "S12 two readers of one cached name, the clock moves between their reads", Declared: []string{"d"}, Expiry: 1000 * time.Second,
+			Initial: map[string]cInit{"d": {Ver: 1, LastAccess: -5}, "plum": {Ver: 1, LastAccess: -5}},
+			Threads: map[string][]string{"ra": {"secret:plum", "read:plum"}, "rb": {"secret:plum", "clockadd:100s", "read:plum"}}},
 		{Name: "S9 Refresh installing an update || LookupSecret(new) || reader", Declared: []string{"d"},
 			Threads: map[string][]string{"p": {"refresh"}, "l": {"lookup:u", "read:u"}, "reader": {"secret:d", "read:d"}}, Events: []string{"srv-put:d"}},
 		{Name: "S6 two lookups of the same new name || poll", Declared: []string{"d"},
